@@ -427,6 +427,41 @@ pub fn level3_spines() -> Vec<(String, T)> {
 }
 
 /// Multi-variable iteration: every combination of domain shapes, 2 and 3 domains, every order.
+/// A list of numbers `in` a list of lists of numbers: left lists of 1..2 items and one inner list of 1..3 items over
+/// {1, 2, 3}, then two inner lists of 1..2 items; also with the left list bound to the name `x`-free form only (literals).
+pub fn lists_in_lists() -> Vec<(String, T)> {
+  fn lists(max: usize) -> Vec<Vec<i64>> {
+    let mut out: Vec<Vec<i64>> = vec![];
+    let mut layer: Vec<Vec<i64>> = vec![vec![]];
+    for _ in 0..max {
+      let mut next = vec![];
+      for l in &layer {
+        for v in 1..=3 {
+          let mut m = l.clone();
+          m.push(v);
+          next.push(m);
+        }
+      }
+      out.extend(next.iter().cloned());
+      layer = next;
+    }
+    out
+  }
+  let tl = |l: &Vec<i64>| T::List(l.iter().map(|v| num(*v)).collect());
+  let mut out = vec![];
+  for x in lists(2) {
+    for a in lists(3) {
+      out.push((format!("list-in-lists:1:{:?}:{:?}", x, a), T::Bin(Op::In, Box::new(tl(&x)), Box::new(T::List(vec![tl(&a)])))));
+    }
+    for a in lists(2) {
+      for b in lists(2) {
+        out.push((format!("list-in-lists:2:{:?}:{:?}:{:?}", x, a, b), T::Bin(Op::In, Box::new(tl(&x)), Box::new(T::List(vec![tl(&a), tl(&b)])))));
+      }
+    }
+  }
+  out
+}
+
 pub fn iteration_products() -> Vec<(String, T)> {
   let shapes: Vec<(&str, Dom)> = vec![
     ("empty", Dom::Single(T::List(vec![]))),
